@@ -209,6 +209,17 @@ func c18r4(c *Ctx) {
 		}
 		return true
 	})
+	if dfr != nil {
+		// the deferred cleanup must act on the destination current at exit: a plain
+		// `defer x.endGCWriting()` binds x when the defer statement runs
+		if _, isLit := dfr.Call.Fun.(*ast.FuncLit); !isLit {
+			if se, ok := prog.Unparen(dfr.Call.Fun).(*ast.SelectorExpr); ok {
+				nd := len(f.DefsOfPath(se.X))
+				c.check(nd <= 1, R, f.Key+": deferred endGCWriting acts on the final destination", c.pos(dfr), "receiver evaluated at exit",
+					"`defer "+types.ExprString(se.X)+".endGCWriting()` evaluates its receiver when the defer is registered, but the destination variable is reassigned when the destination rotates: the final destination is never closed nor truncated to its write head (and keeps rewriting=true)")
+			}
+		}
+	}
 	if !c.check(dfr != nil, R, f.Key+": deferred endGCWriting", f.Pos(), "registered", "gc does not defer endGCWriting: an early exit (error, cancel) leaves the rewritten file with its stale tail and an open writer") {
 		return
 	}
@@ -268,6 +279,18 @@ func c18r4(c *Ctx) {
 			}
 		}
 		argOK := len(t.Expr.Args) > 0 && prog.MentionsField(einfo, t.Expr.Args[len(t.Expr.Args)-1], "store.dataChunk.writingHead")
+		// the rewriting flag is cleared on every path
+		c.Paths++
+		esc := ef.CFG().EscapesWithout(nil, func(n ast.Node) bool {
+			as, ok := n.(*ast.AssignStmt)
+			if !ok || len(as.Lhs) != 1 || !prog.IsField(einfo, "store.dataChunk.rewriting")(as.Lhs[0]) {
+				return false
+			}
+			b, isC := prog.ConstBool(einfo, as.Rhs[0])
+			return isC && !b
+		}, nil)
+		c.check(!esc.Found, R, ef.Key+": rewriting cleared on every path", ef.Pos(), "dc.rewriting = false reached on all exits",
+			"a path through endGCWriting leaves dc.rewriting set (e.g. when nothing had to be truncated): a later pass that appends to this chunk opens it with append = !rewriting = false and overwrites the head of the file while its write head points at the end", c.trail(esc.Trail)...)
 		c.check(hasRew && hasLess && argOK, R, ef.Key+": Truncate(writingHead) when rewriting ∧ writingHead < size", t.Pos(), "guard and argument recognised", "the truncation of a rewritten file is no longer `Truncate(dc.writingHead)` under `rewriting && writingHead < size`")
 	}
 }
